@@ -102,7 +102,7 @@ def start_geometry(init):
         nx, ny, nz, cv, at = init['params']
         xs = [10. + 5 * (i % 3) for i in range(nx)]
         ys = [10. + 10 * (j % 2) for j in range(ny)]
-        g = m.mulgrid().rectangular(xs, ys, [5.] * nz if nz < 3 else [5., 5., 10.] + [10.] * (nz - 3), convention=cv, atmos_type=at)
+        g = m.mulgrid().rectangular(xs, ys, [5.] * nz if nz < 3 else [5., 5., 10.] + [10.] * (nz - 3), convention=cv, atmos_type=at, justify=init.get('justify', 'r'))
         if init.get('surface'):
             for i, c in enumerate(g.columnlist):
                 z = init['surface'][i % len(init['surface'])]
@@ -211,13 +211,26 @@ def judge(g, op, dom, broken, out, t, before=None):
     return set(now)
 
 
+def _strings(x):
+    if isinstance(x, str): return set([x])
+    if isinstance(x, (list, tuple)):
+        out = set()
+        for y in x: out |= _strings(y)
+        return out
+    return set()
+
+
 def run_impl_sequence(g, ops, hash_mode=False):
     """apply `ops` to the real geometry; after each step record the canonical dump and evaluate the statement.
     Stops at the first exception (like the model)."""
     out = Outcome()
     broken = set(L.inv_classes(g))
+    # names the caller chose (start geometry, edit arguments): a collision between two of them once padding is stripped is the
+    # caller's doing; a collision involving a name the LIBRARY made up (split_column, refine, decompose_columns, ...) is not
+    user_names = set(o.name for lst in (g.columnlist, g.nodelist, g.layerlist) for o in lst) | _strings(ops)
+    culprit = None
     for t, op in enumerate(ops):
-        if op[0] in L.HINTED and (broken & set(STRUCTURAL)):
+        if op[0] in L.HINTED and op[0] not in ('fs', 'cg') and (broken & set(STRUCTURAL)):
             break        # set-iteration order decides what a compound edit does on an inconsistent object graph: not compared
         dom = in_domain(g, op)
         before = L.mesh_defect_sets(g) if op[0] in L.PROMISES_VALID_MESH and dom else None
@@ -230,7 +243,24 @@ def run_impl_sequence(g, ops, hash_mode=False):
         out.steps += 1
         d = L.dump(g)
         out.obs.append(L.adler(d) if hash_mode else d)
+        od = L.other_geometry_defects(g)
+        if od:
+            out.fails.append((t, '%s:other-geometry' % L.OP_METHOD[op[0]], od))
+            g._c10_other_dump = L.dump(g._c10_other)          # reported once
+        if culprit is None and any(any(n not in user_names for n in grp) for _, grp in L.stripped_collisions(g)): culprit = t
         broken = judge(g, op, dom, broken, out, t, before)
+    # "... each optionally followed by a file round trip": exercised when the object graph in memory is consistent and either the
+    # names are distinct once stripped, or the clash involves a name the library generated
+    if out.steps and not (broken & (set(STRUCTURAL) | set(['neighbours']))):
+        try:
+            clash = L.stripped_collisions(g)
+            if (not clash or culprit is not None) and all(c.surface is not None for c in g.columnlist) and len(g.layerlist) > 0:
+                rt = L.round_trip_defects(g)
+                if rt:
+                    t = culprit if culprit is not None else out.steps - 1
+                    out.fails.append((t, '%s:round-trip' % L.OP_METHOD[ops[t][0]], rt))
+        except Exception as e:
+            out.outside.append('round-trip:' + L.exn_name(e))
     return out
 
 
@@ -357,6 +387,10 @@ def alphabet(g, n, level):
         if level > 0: ops.append(('sr', names[:1]))
         ops.append(('cl', [(lays[0], 0., 0., 0.), ('zz'[-g.layername_length:].rjust(g.layername_length), -4., -2., 0.), (lays[1], -12., -8., -4.)]))
     ops.append(('tl', 5., -3., 2.)); ops.append(('ro', 30.))
+    # two live geometries: layers copied from another one that stays alive; a vertical move of either must not touch the other
+    if len(g.layerlist) > 1:
+        ops.append(('cg', [10., 10., 10.])); ops.append(('tl', 0., 0., 15.))
+        if getattr(g, '_c10_other', None) is not None: ops.append(('ot', 15.))
     return ops
 
 
@@ -475,7 +509,7 @@ def random_op(rng, g, p_bad):
     bad = rng.random() < p_bad
     kinds = ['sp'] * 12 + ['dc'] * 7 + ['rc'] * 9 + ['rl'] * 4 + ['dk'] * 4 + ['ak'] * 5 + ['dn'] * 2 + ['an'] * 2 + ['ac'] * 3 + \
             ['al'] * 2 + ['dl'] * 2 + ['aw'] * 1 + ['dw'] * 1 + ['do'] * 4 + ['in'] * 4 + ['sb'] * 3 + ['sk'] * 3 + ['nl'] * 3 + ['ss'] * 5 + \
-            ['rf'] * 10 + ['rd'] * 5 + ['de'] * 5 + ['cf'] * 4 + ['tr'] * 2 + ['ry'] * 3 + ['cl'] * 2 + ['sn'] * 4 + ['sr'] * 2 + ['fs'] * 3 + ['tl'] * 3 + ['ro'] * 2
+            ['rf'] * 10 + ['rd'] * 5 + ['de'] * 5 + ['cf'] * 4 + ['tr'] * 2 + ['ry'] * 3 + ['cl'] * 2 + ['sn'] * 4 + ['sr'] * 2 + ['fs'] * 3 + ['cg'] * 2 + ['ot'] * 2 + ['tl'] * 3 + ['ro'] * 2
     k = rng.choice(kinds)
     if k == 'rf':
         if not names: return ('cf',)
@@ -507,6 +541,8 @@ def random_op(rng, g, p_bad):
         return ('cl', ls)
     if k == 'sn': return ('sn', float(rng.choice([0, 1, 3, 6])), [] if rng.random() < 0.5 or not names else rng.sample(names, min(len(names), 3)))
     if k == 'sr': return ('sr', [] if rng.random() < 0.5 or not names else rng.sample(names, min(len(names), 3)))
+    if k == 'cg': return ('cg', [float(rng.choice([4, 6, 10])) for _ in range(rng.randint(1, 4))])
+    if k == 'ot': return ('ot', float(rng.choice([-15, -4, 8, 15]))) if getattr(g, '_c10_other', None) is not None else ('tl', 0., 0., float(rng.choice([-15, 8, 15])))
     if k == 'fs':
         if not fs_ok(g) or len(names) > 120: return ('sn', 1.0, [])
         lo, hi = g.layerlist[-1].bottom, g.layerlist[0].top
@@ -603,6 +639,7 @@ RANDOM_STARTS = [
     {'kind': 'rect', 'params': [3, 3, 3, 1, 0], 'surface': [None, -3., -5., -12.]}, {'kind': 'rect', 'params': [5, 4, 3, 2, 1], 'surface': [None, None, -7.]},
     {'kind': 'rect', 'params': [6, 5, 2, 3, 2]}, {'kind': 'mixed', 'params': [0, 0]}, {'kind': 'mixed', 'params': [0, 1]}, {'kind': 'mixed', 'params': [3, 2]},
     {'kind': 'file', 'name': 'g1.dat', 'layers': 4}, {'kind': 'file', 'name': 'g7.dat', 'layers': 4},
+    {'kind': 'rect', 'params': [3, 2, 3, 0, 0], 'justify': 'l'}, {'kind': 'rect', 'params': [3, 3, 2, 2, 1], 'justify': 'l'},
 ]
 BIG_STARTS = [
     {'kind': 'rect', 'params': [15, 12, 3, 0, 0], 'surface': [None, None, None, -3., -6.]}, {'kind': 'rect', 'params': [20, 15, 2, 0, 2]},
@@ -784,13 +821,14 @@ def run(ctx):
     r22 = {'kind': 'rect', 'params': [2, 2, 3, 0, 0]}
     r32 = {'kind': 'rect', 'params': [3, 2, 2, 0, 1], 'surface': [None, -3., None]}
     r22b = {'kind': 'rect', 'params': [2, 2, 2, 3, 2]}
+    r22l = {'kind': 'rect', 'params': [2, 2, 3, 0, 0], 'justify': 'l'}          # left-justified names
     mix = {'kind': 'mixed', 'params': [0, 2]}
     # (start, depth, alphabet level at each depth)
     if ctx.thorough:
-        plan = [(r22, 3, (1, 0, 0)), (r22, 2, (2, 2)), (r32, 3, (0, 0, 0)), (r32, 2, (1, 2)), (mix, 3, (0, 0, 0)), (mix, 2, (2, 2)), (r22b, 2, (1, 1))]
+        plan = [(r22, 3, (1, 0, 0)), (r22, 2, (2, 2)), (r32, 3, (0, 0, 0)), (r32, 2, (1, 2)), (mix, 3, (0, 0, 0)), (mix, 2, (2, 2)), (r22b, 2, (1, 1)), (r22l, 3, (0, 0, 0))]
         nrand, nbig = 1500, 300
     else:
-        plan = [(r22, 2, (1, 1)), (r22, 1, (2,)), (r32, 2, (0, 0)), (mix, 2, (0, 1)), (mix, 1, (2,)), (r22b, 2, (0, 0))]
+        plan = [(r22, 2, (1, 1)), (r22, 1, (2,)), (r32, 2, (0, 0)), (mix, 2, (0, 1)), (mix, 1, (2,)), (r22b, 2, (0, 0)), (r22l, 2, (0, 0))]
         nrand, nbig = 160, 32
     replay_witnesses(ctx)
     tot = sweep(ctx, exe, fixbits, plan, nrand, nbig, 25)
